@@ -4,7 +4,7 @@ import random
 import shutil
 import tempfile
 
-from verif import build, proc
+from verif import build
 from verif.gen import mpi, dtype as D
 
 META = {
@@ -16,18 +16,156 @@ META = {
     "level_text": "Random trees of contiguous/vector/hvector/indexed/hindexed/indexed_block/struct/resized/subarray constructors (depth <= 3, "
                   "non-negative displacements, zero counts and block lengths at the root), every node of every tree tested as a type of its own: "
                   "MPI_Type_size and MPI_Type_get_extent against the reference, then counts 0,1,2,3,5 through Sendrecv-to-self, Send/Recv and "
-                  "Isend/Irecv typed-typed, typed->bytes and bytes->typed (wire order), Pack, Unpack, Bcast, Gather, Scatter. A failure of a "
-                  "composite type is attributed to its deepest failing component.",
+                  "Isend/Irecv typed-typed, typed->bytes and bytes->typed (wire order), Pack, Unpack, Bcast, Gather, Scatter. Plus directed "
+                  "types (classic shapes and the minimal witness of every open finding). A failure is keyed by its root cause when the "
+                  "type has the feature that triggers one of the known defects of SMPI's (un)serialisation/bounds code, by constructor and "
+                  "features otherwise; a composite type is only judged when its components are sound.",
     "level_note": "Hooks flavour only (SMPI's dlopen privatisation under ASan reports in the sanitizer's own sigaltstack interceptor), so "
                   "out-of-bounds accesses are only seen through 64-byte guard zones or crashes. The alignment padding of MPI extents is "
-                  "implementation-defined: where it matters (roots only) both the padded and the unpadded extent are accepted. "
-                  "MPI_Type_get_true_extent is printed but not judged (not in the statement).",
+                  "implementation-defined: where it matters (roots only) both the padded and the unpadded extent are accepted. Not judged "
+                  "because the standard does not say: lb/extent of a type with an empty type map; bounds of a struct mixing members with and "
+                  "without explicit bounds (sticky markers: MPI text vs MPICH practice; never generated). MPI_Type_get_true_extent is printed "
+                  "but not judged (not in the statement). While the open findings are open, a type whose MPI extent is wrong is only moved "
+                  "with count <= 1 (no gather/scatter), and types built on an unsound component are not judged (counter masked_by_component).",
     "rule": "case = one datatype node (constructor + arguments + old types) with its reference type map; non-trivial = a derived type "
             "with >= 2 segments or a non-trivial extent whose tests ran; distinct by constructor arguments",
     "ready": False,
 }
 PATHS = ["sendrecv-self", "send-recv", "typed-to-bytes", "bytes-to-typed", "pack", "unpack", "bcast", "gather", "isend-irecv", "scatter"]
 CODES = {1: "wrong-or-missing", 2: "outside-modified", 3: "mpi-error", 4: "wrong-count"}
+COUNTS = [0, 1, 2, 3, 5]
+
+# Root causes of the open findings (known_findings.d/C30.json). A failure gets one of these keys only when the failing type has the
+# feature that triggers the defect (predicates below, derived from the defect, decided on the *reference* description of the type).
+RC = {
+    "zero-size": "C30:zero-size-type:copy-divides-by-size",
+    "hvector": "C30:transfer:hvector:next-element-not-at-extent",
+    "hindexed": "C30:transfer:hindexed:next-element-not-at-extent",
+    "struct": "C30:transfer:struct:next-element-not-at-extent",
+    "bounds-old-lb": "C30:meta:bounds:old-type-lb-nonzero",
+    "bounds-empty-block": "C30:meta:bounds:empty-block-counted",
+    "subarray-extent": "C30:meta:subarray:extent-of-oldtype-not-of-array",
+    "subarray-1d": "C30:subarray:ndims=1:array-size-and-start-ignored",
+}
+
+# Directed types: (name, description, finding expected while it is open or None). Each runs in its own smpirun.
+DIRECTED = [
+    ("matrix-column", "vector(4,1,5; MPI_DOUBLE)", None),
+    ("blocks-of-ints", "vector(3,2,4; MPI_INT)", None),
+    ("hvector-odd-stride", "hvector(3,1,9; MPI_INT)", None),
+    ("indexed-from-zero", "indexed(3,1,2,1,0,2,5; MPI_INT)", None),
+    ("upper-triangle", "indexed(3,3,2,1,0,4,8; MPI_DOUBLE)", None),
+    ("c-struct", "struct(3,1,1,3,0,8,16; MPI_INT,MPI_DOUBLE,MPI_CHAR)", None),
+    ("c-struct-resized", "resized(0,24; struct(3,1,1,3,0,8,16; MPI_INT,MPI_DOUBLE,MPI_CHAR))", None),
+    ("every-other-int", "resized(0,8; MPI_INT)", None),
+    ("vector-of-struct", "vector(2,2,3; struct(2,1,1,0,8; MPI_DOUBLE,MPI_LONG_LONG))", None),
+    ("hindexed-of-vector", "hindexed(2,1,1,0,64; vector(2,1,3; MPI_DOUBLE))", None),
+    ("one-cell-subarray", "subarray(2,1,1,1,1,0,0,0; MPI_INT)", None),
+    ("empty-contiguous", "contiguous(0; MPI_INT)", None),
+    # minimal witnesses of the open findings
+    ("F-zero-size", "vector(2,0,1; MPI_LONG_LONG)", "zero-size"),
+    ("F-hvector", "vector(2,1,2; resized(0,8; MPI_INT))", "hvector"),
+    ("F-vector-of-padded-struct", "vector(2,2,3; resized(0,16; struct(2,1,1,0,8; MPI_INT,MPI_DOUBLE)))", "hvector"),
+    ("F-contiguous-of-vector", "contiguous(3; resized(0,24; vector(2,1,2; MPI_DOUBLE)))", "hvector"),
+    ("F-hindexed", "indexed(2,1,1,1,3; MPI_INT)", "hindexed"),
+    ("F-struct", "struct(2,1,1,8,0; MPI_DOUBLE,MPI_INT)", "struct"),
+    ("F-resized-lb", "resized(4,8; MPI_INT)", "struct"),
+    ("F-bounds-old-lb", "indexed(1,2,0; indexed(1,1,1; MPI_INT))", "bounds-old-lb"),
+    ("F-bounds-empty-block", "hindexed(2,0,1,0,8; MPI_INT)", "bounds-empty-block"),
+    ("F-subarray-extent", "subarray(2,2,2,2,2,0,0,0; MPI_INT)", "subarray-extent"),
+    ("F-subarray-1d", "subarray(1,4,2,1,0; MPI_INT)", "subarray-1d"),
+]
+
+
+# ---------------------------------------------------------------------------------------------------------------------------------
+# classification of a failure by root cause (never decides *whether* something failed: the reference type map does)
+def blocks(t):
+    """(old type, number of consecutive elements of it that are moved at once) for each block of t."""
+    a, k = t.args, t.kind
+    if k in (1, 8):
+        return [(t.kids[0], 1)]
+    if k in (2, 3):
+        return [(t.kids[0], a[1])] if a[0] > 0 else []
+    if k in (4, 5):
+        return [(t.kids[0], b) for b in a[1:1 + a[0]]]
+    if k == 6:
+        return [(t.kids[0], a[1])] * a[0]
+    if k == 7:
+        return [(t.kids[i], a[1 + i]) for i in range(a[0])]
+    if k == 9:
+        nd = a[0]
+        subs, order = a[1 + nd:1 + 2 * nd], a[1 + 3 * nd]
+        return [(t.kids[0], subs[0] if order == 1 else subs[nd - 1])]
+    return []
+
+
+def own_trigger(t):
+    """Is the element after the first one misplaced by the (un)serialisation loop of t's class? (defect: the loop goes on from the
+    end of the last block instead of one extent after the beginning of the element)"""
+    a, k = t.args, t.kind
+    c = t.kids[0]
+    if k == 1 or (k == 9 and a[0] == 1):   # contiguous (and today's 1-D subarray) of a derived type is hvector(count, 1, extent)
+        n = a[0] if k == 1 else a[2]
+        return "hvector" if c.kind != 0 and n > 0 and c.size != c.extent else None
+    if k in (2, 3):
+        n, bl, st = a
+        if n == 0:
+            return None
+        stb = st * c.extent if k == 2 else st
+        return "hvector" if (n - 1) * stb + bl * c.size != t.extent else None
+    if k in (4, 5, 6, 7):
+        n = a[0]
+        if n == 0:
+            return None
+        if k == 6:
+            bls, idx = [a[1]] * n, [d * c.extent for d in a[2:2 + n]]
+        else:
+            bls = a[1:1 + n]
+            idx = a[1 + n:1 + 2 * n] if k != 4 else [d * c.extent for d in a[1 + n:1 + 2 * n]]
+        last = t.kids[n - 1] if k == 7 else c
+        end = bls[-1] * last.extent
+        ok = end == t.extent if n == 1 else (idx[0] == 0 and idx[-1] + end == t.extent)
+        return None if ok else ("struct" if k == 7 else "hindexed")
+    if k == 8:                # resized = struct(LB at lb, old at 0, UB at lb+extent)
+        return "struct" if a[0] != 0 else None
+    return None
+
+
+def affected(t, c, observed=None):
+    """Root cause that explains a wrong transfer of c consecutive elements of t, or None. A defect of a component (moved with
+    count = block length) comes first; when that component was itself tested as a type of its own with that count, what was
+    observed there decides whether its defect is at work (observed: {(type id, count): failed?})."""
+    if t.kind == 0 or c < 1:
+        return None
+    for kid, bl in blocks(t):
+        if kid.kind == 0 or bl < 1:
+            continue
+        if observed is not None and (kid.id, bl) in observed and not observed[(kid.id, bl)]:
+            continue
+        r = affected(kid, bl, observed)
+        if r:
+            return r
+    return own_trigger(t) if c >= 2 else None
+
+
+def meta_cause(t, rule):
+    if rule == "size":
+        return None
+    if t.kind == 9:
+        nd = t.args[0]
+        if nd == 1:
+            return "subarray-1d"
+        total = 1
+        for s in t.args[1:1 + nd]:
+            total *= s
+        return "subarray-extent" if rule == "extent" and total > 1 else None
+    if t.kind in (4, 5, 6, 7):
+        bs = blocks(t)
+        if any(k.lb != 0 for k, _ in bs):
+            return "bounds-old-lb"
+        if any(bl == 0 for _, bl in bs):
+            return "bounds-empty-block"
+    return None
 
 
 def features(t):
@@ -46,139 +184,264 @@ def features(t):
     return ":".join(f)
 
 
-def judge_batch(ctx, order, out, witness, complete):
-    meta, xs, begun = {}, {}, {}
-    crash = None
-    for line in out.splitlines():
-        p = line.split()
-        if not p:
-            continue
-        try:
-            if p[0] == "m":
-                meta[int(p[1])] = list(map(int, p[2:8]))
-            elif p[0] == "x":
-                xs.setdefault(int(p[1]), []).append((int(p[2]), int(p[3]), int(p[4]), int(p[5])))
-            elif p[0] == "b":
-                begun[int(p[2])] = int(p[3])
-            elif p[0] == "CRASH":
-                crash = (int(p[1]), int(p[2]), int(p[3]), int(p[4]))
-        except (ValueError, IndexError):
-            pass
-    bad = {}      # type id -> True when something about this node is wrong (used to mask its ancestors)
-    byid = {t.id: t for t in order}
+def cnt_class(c):
+    return "0" if c == 0 else "1" if c == 1 else "n"
 
-    def desc_bad(t):
-        return any(k.kind != 0 and (bad.get(k.id) or desc_bad(k)) for k in t.kids)
 
-    for t in order:
-        m = meta.get(t.id)
-        if m is None:
-            continue
-        ctx.count("types_checked")
-        masked = desc_bad(t)
-        what0 = "%s  reference: size=%d lb=%d extent=%d%s segments=%s" % (D.describe(t), t.size, t.lb, t.extent,
-                                                                          ("|%d" % t.ext1) if t.ext1 != t.extent else "", t.segs[:12])
-        w = dict(witness, type_id=t.id)
-        ft = features(t)
-        if m[0] != 0:
-            bad[t.id] = True
-            if not masked:
-                ctx.violation("C30:create:error:%s:%s" % (t.name, ft), "constructor failed (rc=%d) for %s" % (m[0], what0), w)
-            continue
-        rc, size, lb, ext, tlb, text = m
-        ext_bad = False
-        for rule, got, ok in (("size", size, size == t.size), ("lb", lb, lb == t.lb), ("extent", ext, ext in (t.extent, t.ext1))):
-            ctx.count("meta_checks")
-            if not ok:
-                bad[t.id] = True
+# ---------------------------------------------------------------------------------------------------------------------------------
+class Batch:
+    """One case file = a list of type nodes (components before composites), run in one or several smpirun processes."""
+
+    def __init__(self, ctx, exe, tmp, roots, witness, name, corrupt=None):
+        self.ctx, self.exe, self.witness, self.corrupt = ctx, exe, witness, corrupt
+        self.order, text = D.case_lines(roots)
+        self.byid = {t.id: t for t in self.order}
+        self.index = {t.id: i for i, t in enumerate(self.order)}
+        self.path = os.path.join(tmp, name + ".case")
+        with open(self.path, "w") as f:
+            f.write(text)
+        self.meta, self.xs, self.deaths = {}, {}, {}
+        self.tainted = set()     # nodes that are wrong in a way that makes whatever is built on them unpredictable
+        self.observed = {}       # (type id, count) -> did a transfer of that many elements of that type fail?
+
+    @staticmethod
+    def parse(out):
+        """-> (complete, crash=(sig, rank) or None, last progress line of each rank, meta lines, transfer results)"""
+        prog, crash, meta, xs = {}, None, {}, {}
+        for line in out.splitlines():
+            p = line.split()
+            if not p:
+                continue
+            try:
+                if p[0] == "m":
+                    meta[int(p[1])] = list(map(int, p[2:8]))
+                elif p[0] == "x":
+                    xs.setdefault(int(p[1]), []).append((int(p[2]), int(p[3]), int(p[4]), int(p[5])))
+                elif p[0] == "p":
+                    prog[int(p[1])] = (int(p[2]), int(p[3]), int(p[4]))
+                elif p[0] == "CRASH":
+                    crash = (int(p[1]), int(p[2]))
+            except (ValueError, IndexError):
+                pass
+        return out.count("DONE ") == 2, crash, prog, meta, xs
+
+    def smpirun(self, args):
+        res = mpi.smpirun(self.exe, 2, [self.path] + args, timeout=300)
+        self.ctx.evaluation()
+        if self.corrupt:
+            res.out = self.corrupt(res.out)
+        return res
+
+    def where_died(self, crash, prog):
+        """-> (signal, (type id, count, path)). The ranks share one heap: a synchronous fault (SIGFPE/SIGSEGV/SIGBUS) is the running
+        rank's own, an abort (glibc heap check, xbt_die, deadlock) is attributed to the transfer of the rank that is ahead."""
+        sig = crash[0] if crash else 0
+        if crash and sig in (8, 11, 7) and crash[1] in prog:
+            return sig, prog[crash[1]]
+        if prog:
+            return sig, max(prog.values(), key=lambda w: (self.index.get(w[0], -1), w[1], w[2]))
+        return sig, None
+
+    def run(self):
+        ctx = self.ctx
+        start = 0
+        for _ in range(len(self.order) + 1):
+            if start >= len(self.order):
+                break
+            res = self.smpirun(["from=%d" % start])
+            if res.timed_out:
+                ctx.inconclusive("smpirun watchdog")
+                return
+            complete, crash, prog, meta, xs = self.parse(res.out)
+            self.meta.update(meta)
+            if complete:
+                self.xs.update(xs)
+                break
+            # the process died: find the transfer it died in, judge it, go on after that type
+            sig, where = self.where_died(crash, prog)
+            if where is None or where[0] not in self.index or (where[1] >= 0 and self.index[where[0]] < start):
+                ctx.violation("C30:abort:unattributed", "smpirun rc=%s died outside the transfers (%s): %s" % (
+                    res.rc, where, (res.err or res.out)[-300:]), self.witness)
+                return
+            tid, cnt, pth = where
+            err = res.err or ""
+            if cnt < 0:       # in a constructor: every process would die there again
+                self.xs.update(xs)
+                self.deaths[tid] = (cnt, pth, self.kind_of(sig, res), sig, err[-300:])
+                ctx.count("types_lost_after_constructor_death", len(self.order) - self.index[tid] - 1)
+                return
+            report = True
+            if any(code != 0 for l in xs.values() for _, _, code, _ in l):
+                # Wrong transfers were seen in this process before it died (they are judged on their own): they may have written
+                # out of bounds, so this death proves nothing by itself. Run the type alone in a fresh process.
+                r2 = self.smpirun(["only=%d" % tid])
+                if r2.timed_out:
+                    ctx.inconclusive("smpirun watchdog")
+                    xs.pop(tid, None)
+                    report = False
+                else:
+                    c2, crash2, prog2, _, xs2 = self.parse(r2.out)
+                    xs[tid] = xs2.get(tid, [])
+                    sig2, where2 = self.where_died(crash2, prog2)
+                    if c2:
+                        report = False
+                        ctx.count("deaths_not_reproduced_alone")
+                    elif any(code != 0 for _, _, code, _ in xs[tid]) or where2 is None or where2[0] != tid or where2[1] < 0:
+                        report = False        # again after wrong transfers, of this very type: their consequence
+                        ctx.count("deaths_after_wrong_transfers_of_the_type")
+                    else:
+                        sig, (tid, cnt, pth), err, res = sig2, where2, r2.err or "", r2
+            self.xs.update(xs)
+            if report:
+                self.deaths[tid] = (cnt, pth, self.kind_of(sig, res), sig, err[-300:])
+            start = self.index[tid] + 1
+
+    @staticmethod
+    def kind_of(sig, res):
+        return "crash:sig%d" % sig if sig else ("deadlock" if "eadlock" in (res.err or "") + res.out else "abort")
+
+    def desc_tainted(self, t):
+        return any(k.kind != 0 and (k.id in self.tainted or self.desc_tainted(k)) for k in t.kids)
+
+    def judge(self):
+        ctx = self.ctx
+        for t in self.order:
+            m = self.meta.get(t.id)
+            w = dict(self.witness, type_id=t.id, type=D.describe(t))
+            what0 = "%s  reference: size=%d lb=%d extent=%d%s segments=%s" % (D.describe(t), t.size, t.lb, t.extent,
+                                                                              ("|%d" % t.ext1) if t.ext1 != t.extent else "", t.segs[:12])
+            masked = self.desc_tainted(t)
+            ft = features(t)
+            if m is None:
+                if t.id in self.deaths and not masked:
+                    self.tainted.add(t.id)
+                    ctx.violation("C30:create:%s:%s:%s" % (self.deaths[t.id][2], t.name, ft), "the run died in the constructor of " + what0, w)
+                continue
+            ctx.count("types_checked")
+            if m[0] != 0:
+                self.tainted.add(t.id)
+                if not masked:
+                    ctx.violation("C30:create:error:%s:%s" % (t.name, ft), "constructor failed (rc=%d) for %s" % (m[0], what0), w)
+                continue
+            rc, size, lb, ext, tlb, text = m
+            ext_bad = False
+            rules = [("size", size, size == t.size)]
+            if t.segs:        # the standard defines lb/ub from the entries of the type map: nothing to compare for an empty one
+                rules += [("lb", lb, lb == t.lb), ("extent", ext, ext in (t.extent, t.ext1))]
+            else:
+                ctx.count("empty_typemap_bounds_not_judged")
+            for rule, got, ok in rules:
+                ctx.count("meta_checks")
+                if ok:
+                    continue
+                self.tainted.add(t.id)
                 ext_bad = ext_bad or rule == "extent"
                 if masked:
                     ctx.count("masked_by_component")
+                    continue
+                cause = meta_cause(t, rule)
+                key = RC[cause] if cause else "C30:meta:%s:%s:%s" % (rule, t.name, ft)
+                ctx.violation(key, "MPI answers %s=%d for %s" % (rule, got, what0), w)
+            if t.segs:
+                tl = min(o for o, _ in t.segs)
+                te = max(o + l for o, l in t.segs) - tl
+                if (tlb, text) != (tl, te):
+                    ctx.count("true_extent_differs_not_judged")
+            # transfers: group the failed checks by count
+            fails = {}
+            for cnt, path, code, where in self.xs.get(t.id, []):
+                ctx.count("transfer_checks")
+                if code != 0:
+                    fails.setdefault(cnt, []).append((path, code, where))
+            death = self.deaths.get(t.id)
+            if death and death[0] >= 0:
+                fails.setdefault(death[0], []).append((death[1], -1, 0))
+            for cnt in {c for c, _, _, _ in self.xs.get(t.id, [])} | set(fails):
+                self.observed[(t.id, cnt)] = cnt in fails
+            meta_bad = t.id in self.tainted
+            for cnt in sorted(fails):
+                fl = sorted(fails[cnt])
+                if t.size == 0 and cnt >= 1 and any(c == -1 for _, c, _ in fl) and death[3] == 8:
+                    cause = "zero-size"
+                elif t.kind == 9 and t.args[0] == 1 and meta_bad and cnt >= 1:
+                    cause = "subarray-1d"
                 else:
-                    ctx.violation("C30:meta:%s:%s:%s" % (rule, t.name, ft), "MPI answers %s=%d for %s" % (rule, got, what0), w)
-        if t.segs:
-            tl = min(o for o, _ in t.segs)
-            te = max(o + l for o, l in t.segs) - tl
-            if (tlb, text) != (tl, te):
-                ctx.count("true_extent_differs_not_judged")
-        fails = {}
-        for cnt, path, code, where in xs.get(t.id, []):
-            ctx.count("transfer_checks")
-            if code != 0:
-                fails.setdefault(path, []).append((cnt, code, where))
-        if fails:
-            bad[t.id] = True
-            allf = sorted((c, p_, code, where) for p_, l in fails.items() for c, code, where in l)
-            cnt = allf[0][0]
-            if masked:
-                ctx.count("masked_by_component")
-            elif ext_bad and cnt > 1:
-                ctx.count("consequence_of_wrong_extent")
-            else:
-                ser = any(p_ in (2, 4) for p_ in fails)           # typed -> contiguous bytes
-                unser = any(p_ in (3, 5) for p_ in fails)         # contiguous bytes -> typed
-                fam = "+".join(x for x, on in (("serialize", ser), ("unserialize", unser)) if on) or \
-                      "only=" + ",".join(PATHS[p_] for p_ in sorted(fails))
-                codes = sorted({CODES.get(code, "?") for _, p_, code, _ in allf if code != 1}) or ["wrong-or-missing"]
-                first = allf[0]
-                ctx.violation("C30:transfer:%s:%s:count=%s:%s" % (t.name, ft, "0" if cnt == 0 else "1" if cnt == 1 else "n", fam),
-                              "count=%d through %s: %s at byte %d (failing paths: %s; failing counts %s; kinds %s) for %s" % (
-                                  cnt, PATHS[first[1]], CODES.get(first[2]), first[3], ",".join(PATHS[p_] for p_ in sorted(fails)),
-                                  sorted({c for c, _, _, _ in allf}), codes, what0), w)
-        if t.id in xs and len(t.segs) >= 2 or (t.id in xs and t.extent != t.size):
-            ctx.nontrivial("%s/%s" % (t.name, t.args))
-    return crash, begun, bad
+                    cause = affected(t, cnt, self.observed)
+                if cnt <= 1 or not cause:
+                    self.tainted.add(t.id)
+                if masked:
+                    ctx.count("masked_by_component")
+                    continue
+                if ext_bad and (cnt > 1 or all(p in (7, 9) for p, _, _ in fl)):
+                    ctx.count("consequence_of_wrong_extent")
+                    continue
+                ps = sorted({p for p, _, _ in fl})
+                first = fl[0]
+                if first[1] == -1:
+                    how = "the run died (%s: %s)" % (death[2], death[4].strip()[-160:])
+                    fam = death[2]
+                else:
+                    how = "%s at byte %d" % (CODES.get(first[1]), first[2])
+                    ser = any(p in (2, 4) for p in ps)            # typed -> contiguous bytes
+                    unser = any(p in (3, 5) for p in ps)          # contiguous bytes -> typed
+                    fam = "+".join(x for x, on in (("serialize", ser), ("unserialize", unser)) if on) or \
+                          "only=" + ",".join(PATHS[p] for p in ps)
+                key = RC[cause] if cause else "C30:transfer:%s:%s:count=%s:%s" % (t.name, ft, cnt_class(cnt), fam)
+                ctx.violation(key, "count=%d through %s: %s (failing paths: %s) for %s" % (
+                    cnt, PATHS[first[0]] if first[0] >= 0 else "?", how, ",".join(PATHS[p] for p in ps if p >= 0), what0), w)
+            if t.id in self.xs and (len(t.segs) >= 2 or t.extent != t.size):
+                ctx.nontrivial("%s/%s" % (t.name, t.args))
+            if t.id in self.xs and not fails and not masked:
+                ctx.count("types_fully_sound")
+
+    def close(self):
+        if os.path.exists(self.path):
+            os.unlink(self.path)
 
 
-def run_batch(ctx, exe, tmp, seed, ntrees, name):
+def run_random(ctx, exe, tmp, seed, ntrees, name, corrupt=None):
     rng = random.Random(seed)
     g = D.Gen(rng)
     roots = [g.tree(rng.choice([1, 2, 2, 3, 3])) for _ in range(ntrees)]
-    order, text = D.case_lines(roots)
-    path = os.path.join(tmp, name + ".case")
-    with open(path, "w") as f:
-        f.write(text)
-    witness = {"seed": seed, "ntrees": ntrees}
-    skip = []
-    for attempt in range(6):
-        res = mpi.smpirun(exe, 2, [path] + skip, timeout=300)
-        ctx.evaluation()
-        if res.timed_out:
-            ctx.inconclusive("smpirun watchdog")
-            break
-        complete = res.out.count("DONE ") == 2
-        crash, begun, bad = judge_batch(ctx, order, res.out, witness, complete) if attempt == 0 or True else (None, {}, {})
-        if complete:
-            break
-        # the run died: attribute it to the type under test and run the rest again without it
-        if crash:
-            sig, tid, cnt, pth = crash
-        else:
-            tid = max(begun) if begun else None
-            sig, cnt, pth = 0, begun.get(tid, -1) if begun else -1, -1
-        if tid is None or str(tid) in skip:
-            ctx.violation("C30:abort:unattributed", "smpirun rc=%s: %s" % (res.rc, (res.err or res.out)[-300:]), witness)
-            break
-        t = {x.id: x for x in order}[tid]
-        comp_bad = any(k.kind != 0 and bad.get(k.id) for k in D.nodes(t) if k is not t)
-        if not comp_bad:
-            kind = "crash:sig%d" % sig if crash else ("deadlock" if "Deadlock" in res.err + res.out else "abort")
-            ctx.violation("C30:transfer:%s:%s:count=%s:%s" % (t.name, features(t), "0" if cnt == 0 else "1" if cnt == 1 else "n", kind),
-                          "the run died (%s) while moving count=%d of %s: %s" % (kind, cnt, D.describe(t), (res.err or "")[-300:]),
-                          dict(witness, type_id=tid))
-        else:
-            ctx.count("masked_by_component")
-        skip.append(str(tid))
-    os.unlink(path)
+    b = Batch(ctx, exe, tmp, roots, {"seed": seed, "ntrees": ntrees}, name, corrupt)
+    try:
+        b.run()
+        b.judge()
+    finally:
+        b.close()
+    return roots
+
+
+def run_directed(ctx, exe, tmp, name, corrupt=None):
+    ent = [e for e in DIRECTED if e[0] == name][0]
+    root, _ = D.parse(ent[1])
+    b = Batch(ctx, exe, tmp, [root], {"directed": name}, "d-" + name, corrupt)
+    try:
+        b.run()
+        b.judge()
+    finally:
+        b.close()
+    ctx.count("directed_types")
 
 
 def run(ctx):
-    n = ctx.size(40, 1500)        # batches
+    n = ctx.size(36, 1500)        # batches
     per = 12
     exe = build.smpicc("mpi/dtype.c", "hooks")
     tmp = tempfile.mkdtemp(prefix="verif-C30-")
     try:
-        ctx.pmap(lambda i: run_batch(ctx, exe, tmp, ctx.sub_seed(i) % (1 << 40), per, "b%d" % i), range(n))
+        jobs = [("d", e[0]) for e in DIRECTED] + [("r", i) for i in range(n)]
+        mpi.hostfile()
+
+        def one(j):
+            if j[0] == "d":
+                run_directed(ctx, exe, tmp, j[1])
+            else:
+                roots = run_random(ctx, exe, tmp, ctx.sub_seed(j[1]) % (1 << 40), per, "b%d" % j[1])
+                if j[1] == 0:
+                    for r in roots[:3]:
+                        ctx.sample({"type": D.describe(r), "size": r.size, "lb": r.lb, "extent": r.extent, "segments": r.segs[:8]})
+        ctx.pmap(one, jobs)
     finally:
         mpi.cleanup()
         shutil.rmtree(tmp, ignore_errors=True)
@@ -188,7 +451,10 @@ def replay(ctx, w):
     exe = build.smpicc("mpi/dtype.c", "hooks")
     tmp = tempfile.mkdtemp(prefix="verif-C30-")
     try:
-        run_batch(ctx, exe, tmp, w["seed"], w["ntrees"], "replay")
+        if "directed" in w:
+            run_directed(ctx, exe, tmp, w["directed"])
+        else:
+            run_random(ctx, exe, tmp, w["seed"], w["ntrees"], "replay")
     finally:
         mpi.cleanup()
         shutil.rmtree(tmp, ignore_errors=True)
